@@ -283,7 +283,7 @@ class Engine:
         self.assume(c if choice else z3.Not(c))
         return choice
 
-    def prove(self, goal, kind, label, line=None, assume_after=True):
+    def prove(self, goal, kind, label, line=None, assume_after=True, try_hyps=None):
         """Emit the obligation pc => goal."""
         if isinstance(goal, V):
             goal = self.truth(goal)
@@ -296,8 +296,23 @@ class Engine:
         else:
             t0 = time.time()
             status = None
+            if smt._contains_quantifier(g):
+                # a quantified goal that is literally (up to bound-variable names) one of the hypotheses: no solver needed
+                try:
+                    if any(smt.alpha_eq(g, f) for f in reversed(self.pc[-200:])):
+                        status, model, backend, secs = "unsat", None, "alpha-equivalent hypothesis", 0.0
+                except z3.Z3Exception:
+                    pass
+            if status is None and try_hyps is not None:
+                # proof step with a focused hypothesis set (quantifier-free facts + the previous steps): fewer hypotheses is sound
+                try:
+                    r0 = smt._core_check(list(try_hyps) + [z3.Not(g)], min(4000, self.sh.timeout_ms), want_model=False, allow_sat=False)
+                except z3.Z3Exception:
+                    r0 = None
+                if r0 is not None:
+                    status, model, backend, secs = r0[0], None, r0[2] + "(focused-hyps)", 0.0
             n_entry = getattr(self, "pc_entry_len", None)
-            if kind == "lemma" and n_entry is not None and n_entry < len(self.pc):
+            if status is None and kind == "lemma" and n_entry is not None and n_entry < len(self.pc):
                 # lemmas are usually pure arithmetic facts: try with the entry hypotheses only (parameter types + requires);
                 # using fewer hypotheses is sound for 'unsat' and keeps nonlinear queries small and stable
                 try:
